@@ -72,8 +72,78 @@ def collect() -> dict:
     except Exception:
         t['format_extensions'] = []
         t['format_writers'] = []
+    # ---- command line: tables that live in code, not in data ------------------------------------------------
+    # `Command.guess_format` of export-geometry is a chain of `if extension in {…}: return '<format>'` /
+    # `if extension == '…': return '<format>'` statements: translated from the function's AST, in order.
+    # Anything else in the function body (apart from assigning `extension = output_path.suffix`, a docstring and
+    # the final `raise`) makes the translation refuse, and the refusal is emitted as a table no theorem accepts.
+    t['guess_format_table'] = _guess_format_table()
+    # argparse choices and defaults, read from the live parsers
+    t['format_choices'] = _argparse_choices('emsarray.cli.commands.export_geometry', 'format')
+    t['missing_points_choices'] = _argparse_choices('emsarray.cli.commands.extract_points', 'missing_points')
     t['version'] = emsarray.__version__
     return t
+
+
+UNTRANSLATABLE = [('<untranslatable>', '<untranslatable>')]
+
+
+def _guess_format_table() -> list:
+    import ast
+    import inspect
+    import textwrap
+    try:
+        from emsarray.cli.commands import export_geometry as eg
+        fn = ast.parse(textwrap.dedent(inspect.getsource(eg.Command.guess_format))).body[0]
+    except Exception:
+        return UNTRANSLATABLE
+    body = list(fn.body)
+    if body and isinstance(body[0], ast.Expr) and isinstance(body[0].value, ast.Constant) and isinstance(body[0].value.value, str):
+        body = body[1:]
+    var = None
+    table = []
+    for st in body:
+        if isinstance(st, ast.Assign) and len(st.targets) == 1 and isinstance(st.targets[0], ast.Name) \
+                and isinstance(st.value, ast.Attribute) and st.value.attr == 'suffix' and var is None:
+            var = st.targets[0].id
+            continue
+        if isinstance(st, ast.Raise) and st is body[-1]:
+            continue
+        if isinstance(st, ast.If) and not st.orelse and len(st.body) == 1 and isinstance(st.body[0], ast.Return) \
+                and isinstance(st.body[0].value, ast.Constant) and isinstance(st.body[0].value.value, str) \
+                and isinstance(st.test, ast.Compare) and len(st.test.ops) == 1 \
+                and isinstance(st.test.left, ast.Name) and st.test.left.id == var:
+            fmt = st.body[0].value.value
+            op, rhs = st.test.ops[0], st.test.comparators[0]
+            if isinstance(op, ast.Eq) and isinstance(rhs, ast.Constant) and isinstance(rhs.value, str):
+                exts = [rhs.value]
+            elif isinstance(op, ast.In) and isinstance(rhs, (ast.Set, ast.Tuple, ast.List)) \
+                    and all(isinstance(e, ast.Constant) and isinstance(e.value, str) for e in rhs.elts):
+                exts = sorted((e.value for e in rhs.elts), key=lambda e: (len(e), e))   # a set has no order
+            else:
+                return UNTRANSLATABLE
+            for e in exts:
+                if e not in [x for x, _ in table]:       # an earlier `if` wins
+                    table.append((e, fmt))
+            continue
+        return UNTRANSLATABLE
+    return table if var is not None else UNTRANSLATABLE
+
+
+def _argparse_choices(module: str, dest: str) -> dict:
+    """choices and default of one option of a command, from the parser the command builds"""
+    import argparse
+    import importlib
+    try:
+        cmd = importlib.import_module(module).Command()
+        parser = argparse.ArgumentParser()
+        cmd.add_arguments(parser)
+        for a in parser._actions:
+            if a.dest == dest:
+                return {'choices': [str(c) for c in (a.choices or [])], 'default': None if a.default is None else str(a.default)}
+    except Exception:
+        pass
+    return {'choices': ['<unavailable>'], 'default': None}
 
 
 def render(t: dict) -> str:
@@ -102,6 +172,13 @@ def render(t: dict) -> str:
         'def formatExtensions : List (String × String) := ['
         + ', '.join(f'({lean_str(a)}, {lean_str(b)})' for a, b in t['format_extensions']) + ']',
         f"def formatWriters : List String := {lean_list(t['format_writers'])}",
+        '/-- `Command.guess_format`, translated from its AST: (extension, format) in the order the code tests them -/',
+        'def guessFormatTable : List (String × String) := ['
+        + ', '.join(f'({lean_str(a)}, {lean_str(b)})' for a, b in t['guess_format_table']) + ']',
+        f"def formatChoices : List String := {lean_list(t['format_choices']['choices'])}",
+        f"def formatDefault : Option String := {'none' if t['format_choices']['default'] is None else '(some ' + lean_str(t['format_choices']['default']) + ')'}",
+        f"def missingPointsChoices : List String := {lean_list(t['missing_points_choices']['choices'])}",
+        f"def missingPointsDefault : Option String := {'none' if t['missing_points_choices']['default'] is None else '(some ' + lean_str(t['missing_points_choices']['default']) + ')'}",
         '',
         'end Ems.Gen',
         '',
